@@ -1051,7 +1051,11 @@ func Binary(op syntax.Token, x, y Value) (Value, error) {
 
 		case *Dict: // union
 			if y, ok := y.(*Dict); ok {
-				return x.Union(y), nil
+				z, err := x.union(y)
+				if err != nil {
+					return nil, err
+				}
+				return z, nil
 			}
 
 		case *Set: // union
